@@ -26,7 +26,8 @@ from translator.py2coq import Untranslatable
 HEADER = ('From Coq Require Import List Arith.\nFrom AV Require Import model.C20_Model.\n'
           'From Gen Require Import C20_Extracted.\nImport ListNotations.\n')
 DRAIN_ROUNDS = 40          # = fuel of C20_Model.drain inside `observe`
-STEP_TIMEOUT = 20.0
+STEP_TIMEOUT = 6.0
+MAX_STUCK = 3               # after this many stuck schedules the scheduler is of no use on this tree: stop trying
 
 
 class SchedulerStuck(Exception):
@@ -45,8 +46,10 @@ class SchedLock:
         while not self._l.acquire(blocking=False):
             if not blocking:
                 return False
-            if isinstance(w, Worker):
+            if isinstance(w, Worker) and not getattr(w, 'abandoned', False):
                 w.report_blocked()
+            elif isinstance(w, Worker):
+                return self._l.acquire(True, 5)
             else:                                   # not a scheduled thread: behave like a real lock
                 return self._l.acquire(True, timeout)
         return True
@@ -79,13 +82,17 @@ class Worker(threading.Thread):
         self.entered: set = set()
         self.my_ident = None
         self.kept = []
+        self.in_guard = False
 
     # -- called in the worker thread ---------------------------------------------------------
     def _wait(self):
+        if getattr(self, 'abandoned', False):
+            return                                     # the scheduler gave up on this run: just finish
         self.arrived.set()
         if not self.go.wait(timeout=STEP_TIMEOUT * 6):
-            raise SystemExit                           # scheduler gave up on this run
-        self.go.clear()
+            raise SystemExit
+        if not getattr(self, 'abandoned', False):
+            self.go.clear()
 
     def pause(self, label):
         self.pending = label
@@ -111,11 +118,35 @@ class Worker(threading.Thread):
                     self.last = sid
         return self.local_trace
 
+    def helper_trace(self, frame, event, arg):
+        # raw mode only: a function of store.py called from inside the guard (e.g. a helper that hands out the
+        # lock, or does the check) is stepped through line by line as well
+        if event == 'line' and self.in_guard:
+            key = (frame.f_code.co_name, frame.f_lineno)
+            if key != self.last:
+                self.pause(f'{frame.f_code.co_name}:{frame.f_lineno}')
+                self.last = key
+        return self.helper_trace
+
+    def init_trace(self, frame, event, arg):
+        # raw mode: the constructor itself; helpers are stepped through only while it is at or before the guard lines
+        if event == 'line':
+            rr = self.sch.raw_region
+            self.in_guard = rr is not None and frame.f_lineno <= rr[1]
+        elif event == 'return':
+            self.in_guard = False
+        self.local_trace(frame, event, arg)
+        return self.init_trace
+
     def global_trace(self, frame, event, arg):
         if event == 'call' and frame.f_code is self.sch.code:
             self.last = None
             self.entered = set()
-            return self.local_trace
+            self.in_guard = self.sch.guard is None and self.sch.raw_region is not None
+            return self.init_trace if self.sch.guard is None else self.local_trace
+        if (event == 'call' and self.sch.guard is None and self.in_guard and
+                frame.f_code.co_filename == self.sch.code.co_filename):
+            return self.helper_trace
         return None
 
     def run(self):
@@ -198,9 +229,26 @@ class Scheduler:
         """calls[i] constructor calls in worker i (all workers alive for the whole run), scheduled by `sched`
         (list of worker indices), then drained round robin.  Returns dict(labels, results, owner, owners_seen)."""
         saved = {k: getattr(self.store_cls, k) for k in self.lock_names}
+        # class attributes that start as None and may lazily become locks are put back afterwards as well
+        lazy = {k: v for k, v in vars(self.store_cls).items() if v is None and 'lock' in k.lower()}
         self.store_cls.active_in_thread = None
         for k in self.lock_names:
             setattr(self.store_cls, k, SchedLock())
+        store_file = self.code.co_filename
+        orig_lock, orig_rlock = threading.Lock, threading.RLock
+
+        def lock_factory(*a, **k):
+            # a lock made by store.py itself while the scheduler runs (e.g. one created on first use) must be a
+            # try-acquire lock too, or a paused holder would block the other workers inside the C library
+            if sys._getframe(1).f_code.co_filename == store_file:
+                return SchedLock()
+            return orig_lock(*a, **k)
+
+        def rlock_factory(*a, **k):
+            if sys._getframe(1).f_code.co_filename == store_file:
+                return SchedLock()
+            return orig_rlock(*a, **k)
+        threading.Lock, threading.RLock = lock_factory, rlock_factory
         workers = [Worker(self, i, n, close[i], bool(open_missing and open_missing[i])) for i, n in enumerate(calls)]
         labels, owners = [], []
         try:
@@ -227,9 +275,16 @@ class Scheduler:
             return {'labels': labels, 'results': [w.results for w in workers], 'owner': owner,
                     'owners_seen': owners, 'trace': trace}
         finally:
+            threading.Lock, threading.RLock = orig_lock, orig_rlock
             for k, v in saved.items():
                 setattr(self.store_cls, k, v)
+            for k, v in lazy.items():
+                setattr(self.store_cls, k, v)
             self.store_cls.active_in_thread = None
+            for w in workers:                      # never leave a worker waiting for the scheduler
+                if not w.finished:
+                    w.abandoned = True
+                    w.go.set()
 
     def run_sequential_exit(self, calls, close):
         """Thread i runs all its calls and EXITS before thread i+1 is started (no tracing)."""
@@ -398,8 +453,24 @@ def gen_cases(chk: Check, guard):
     if guard is None:
         per_call = 5          # raw mode (untranslatable guard): physical lines are the steps; only used to find a failing input
     cases = []
+    if guard is None:
+        # raw mode (the guard could not be translated; helper functions of store.py are stepped through as well, so
+        # the number of steps per call is unknown): a family of structured schedules for the first two constructor
+        # calls of the process — alternate j steps, let one thread run k steps, the other m steps, alternate again —
+        # and random words.  Only there to FIND failing schedules.
+        for a, b in ((0, 1), (1, 0)):
+            for j in range(5):
+                for k in range(5):
+                    for m in range(5):
+                        w = [a, b] * j
+                        w = w[:2 * j] + [a] * k + [b] * m
+                        w += [a, b] * ((28 - len(w)) // 2)
+                        cases.append({'kind': 'interleave', 'calls': [1, 1], 'close': [True, True], 'sched': w})
+        for _ in range(200):
+            cases.append({'kind': 'interleave', 'calls': [1, 1], 'close': [True, True],
+                          'sched': [rng.randrange(2) for _ in range(24)]})
     # E1: exhaustive — two threads racing to create their first store, every schedule word
-    for w in words(2, 2 * per_call):
+    for w in (words(2, 2 * per_call) if guard is not None else []):
         cases.append({'kind': 'interleave', 'calls': [1, 1], 'close': [True, True], 'sched': w, 'exhaustive': True})
     # sequential orders, before / after close, second and third calls
     for calls in ([2, 1], [1, 2], [2, 2], [3, 1]):
@@ -449,7 +520,12 @@ def check_cases(chk: Check, cases, guard):
         chk.broken('scheduler:lock-not-found', 'the source takes a class-level lock but no threading lock is a class '
                                                'attribute of TrajectoryStore')
     outs = []
+    stuck = 0
+    raw_failures = 0
     for c in cases:
+        if stuck >= MAX_STUCK or (guard is None and raw_failures >= 25):
+            outs.append(None)        # (raw mode is only there to find failing schedules: enough is enough)
+            continue
         try:
             if c['kind'] == 'interleave':
                 outs.append(sch.run_interleaved(c['calls'], c['close'], c['sched'], c.get('open_missing')))
@@ -457,8 +533,11 @@ def check_cases(chk: Check, cases, guard):
                 outs.append(sch.run_main_first(c['calls'], c['close']))
             else:
                 outs.append(sch.run_sequential_exit(c['calls'], c['close']))
+            if guard is None and not oracle(c['calls'], outs[-1])[0]:
+                raw_failures += 1
         except SchedulerStuck as e:
-            chk.broken('scheduler-stuck', str(e), c)
+            stuck += 1
+            chk.broken('scheduler-stuck', str(e) + (' — giving up on scheduled runs' if stuck >= MAX_STUCK else ''), c)
             outs.append(None)
     model = [None] * len(cases)
     if guard is not None:
@@ -525,7 +604,7 @@ def run(chk: Check):
               f'lines {guard.first_line}-{guard.last_line}', file=sys.stderr)
     cases = load_corpus(chk) + gen_cases(chk, guard)
     check_cases(chk, cases, guard)
-    chk.exhaustive = True
+    chk.exhaustive = guard is not None
 
 
 def replay(chk: Check, rp):
